@@ -4,6 +4,8 @@ import (
 	"encoding/json"
 	"fmt"
 	"reflect"
+	"sort"
+	"strings"
 	"sync"
 	"testing"
 	"time"
@@ -57,6 +59,56 @@ func applySop(m *model.Subject, o sop) {
 	}
 }
 
+// linState: the sequential subject plus what is needed to judge a subscriber
+// that unsubscribed. Unsubscribe acts on its own subscriber at the granularity of
+// notifications (C06: no notification whose emission began after it is delivered):
+// when one call delivers several notifications to a subscriber (async's Complete =
+// last value + completion, a replayed buffer, replay + terminal for a late
+// subscriber), an Unsubscribe of that subscriber may cut that delivery short.
+type linState struct {
+	S     *model.Subject
+	Unsub map[int]bool
+	Burst map[int]int // index in the subscriber's log where the last call's deliveries start
+	k     string
+}
+
+func (l *linState) clone() *linState {
+	n := &linState{S: l.S.Clone(), Unsub: map[int]bool{}, Burst: map[int]int{}}
+	for k, v := range l.Unsub {
+		n.Unsub[k] = v
+	}
+	for k, v := range l.Burst {
+		n.Burst[k] = v
+	}
+	return n
+}
+
+// key: the subject's own key plus, per subscriber, whether it unsubscribed and the
+// size of its last delivery when that was more than one notification (the only
+// case in which Burst says something the log does not). Computed once per state.
+func (l *linState) key() string {
+	if l.k != "" {
+		return l.k
+	}
+	ids := make([]int, 0, len(l.S.Logs))
+	for id := range l.S.Logs {
+		ids = append(ids, id)
+	}
+	sort.Ints(ids)
+	var b strings.Builder
+	b.WriteString(l.S.Key())
+	for _, id := range ids {
+		if l.Unsub[id] {
+			fmt.Fprintf(&b, "|u%d", id)
+		}
+		if n := len(l.S.Logs[id]) - l.Burst[id]; n > 1 {
+			fmt.Fprintf(&b, "|b%d:%d", id, n)
+		}
+	}
+	l.k = b.String()
+	return l.k
+}
+
 func c10Model(k subjectKind) porcupine.Model {
 	return porcupine.Model{
 		Init: func() interface{} {
@@ -64,23 +116,42 @@ func c10Model(k subjectKind) porcupine.Model {
 			// the late-subscriber rule of unicast is judged by the sequential check
 			// (listed finding); here the subject is taken as it is on that point
 			m.LegacyUnicastLate = true
-			return m
+			return &linState{S: m, Unsub: map[int]bool{}, Burst: map[int]int{}}
 		},
 		Step: func(state, input, output interface{}) (bool, interface{}) {
-			st := state.(*model.Subject).Clone()
+			st := state.(*linState).clone()
 			in := input.(linIn)
 			if in.Read {
 				got := output.([]model.Notif)
-				want := st.Logs[in.Op.Id]
+				want := st.S.Logs[in.Op.Id]
 				if len(got) == 0 && len(want) == 0 {
 					return true, st
 				}
-				return reflect.DeepEqual(got, want), st
+				if reflect.DeepEqual(got, want) {
+					return true, st
+				}
+				// a subscriber that unsubscribed: its last multi-notification delivery may be cut
+				if st.Unsub[in.Op.Id] && len(got) < len(want) && len(got) >= st.Burst[in.Op.Id] && (len(got) == 0 || reflect.DeepEqual(got, want[:len(got)])) {
+					return true, st
+				}
+				return false, st
 			}
-			applySop(st, in.Op)
+			before := map[int]int{}
+			for id, l := range st.S.Logs {
+				before[id] = len(l)
+			}
+			applySop(st.S, in.Op)
+			for id, l := range st.S.Logs {
+				if len(l) > before[id] {
+					st.Burst[id] = before[id]
+				}
+			}
+			if in.Op.K == 'U' {
+				st.Unsub[in.Op.Id] = true
+			}
 			return true, st
 		},
-		Equal: func(a, b interface{}) bool { return a.(*model.Subject).Key() == b.(*model.Subject).Key() },
+		Equal: func(a, b interface{}) bool { return a.(*linState).key() == b.(*linState).key() },
 		DescribeOperation: func(input, output interface{}) string {
 			in := input.(linIn)
 			if in.Read {
